@@ -228,12 +228,18 @@ class Context:
             vm = self._current_vm
             return vm._get_property(obj, key) if vm is not None else obj.get(key)
 
+        def own_keys(obj):
+            """Own enumerable keys; the elements of an array come first."""
+            if isinstance(obj, JSArray):
+                return [str(i) for i in range(len(obj._elements))] + obj.keys()
+            return obj.keys()
+
         def keys_fn(*args):
             obj = args[0] if args else UNDEFINED
             if not isinstance(obj, JSObject):
                 return JSArray()
             arr = JSArray()
-            arr._elements = list(obj.keys())
+            arr._elements = list(own_keys(obj))
             return arr
 
         def values_fn(*args):
@@ -241,7 +247,7 @@ class Context:
             if not isinstance(obj, JSObject):
                 return JSArray()
             arr = JSArray()
-            arr._elements = [read(obj, k) for k in obj.keys()]
+            arr._elements = [read(obj, k) for k in own_keys(obj)]
             return arr
 
         def entries_fn(*args):
@@ -250,7 +256,7 @@ class Context:
                 return JSArray()
             arr = JSArray()
             arr._elements = []
-            for k in obj.keys():
+            for k in own_keys(obj):
                 entry = JSArray()
                 entry._elements = [k, read(obj, k)]
                 arr._elements.append(entry)
@@ -265,7 +271,7 @@ class Context:
             for i in range(1, len(args)):
                 source = args[i]
                 if isinstance(source, JSObject):
-                    for k in source.keys():
+                    for k in own_keys(source):
                         value = read(source, k)
                         if self._current_vm is not None:
                             # an ordinary assignment: setters of the target run
